@@ -1,4 +1,6 @@
 import GeffProofs.ValidateData
+import GeffProofs.Tracklet
+import GeffProps.C14
 /-! # C12 — optional data validators accept exactly the valid data
 
 Property theorems only.  Models: `Geff.Validate.*` (`GeffModel/ValidateData.lean`), tied to
@@ -246,6 +248,43 @@ theorem C12_ellipsoid_shape_outcomes (axes : Option (List String)) (shape : List
   repeat' split
   all_goals simp
 
+/-- **C12 (ellipsoid, masks), partial**: with the two float tests taken as given per matrix
+(`sym[i]`, `pd[i]` — no Lean model of `np.allclose` / `np.linalg.eigvals`), ellipsoid validation
+passes iff the shape is (N, d, d) for d = number of space axes > 0 and every matrix *not flagged
+missing* is symmetric and positive-definite.  What is missing for the full statement: a model of
+the float tests themselves (differential evidence only). -/
+theorem C12_ellipsoid_iff_modulo_float_partial (axes : Option (List String)) (shape : List Nat)
+    (sym pd : List Bool) (missing : Option (List Bool))
+    (hlen : ∀ m, missing = some m → m.length = (sym.zip pd).length) :
+    validateEllipsoid axes shape sym pd missing = .ok ↔
+      (0 < spaceAxes axes ∧ ∃ n, shape = [n, spaceAxes axes, spaceAxes axes]) ∧
+      ∀ x, Unmasked (sym.zip pd) missing x → x.1 = true ∧ x.2 = true := by
+  obtain ⟨r, hr⟩ := applyMask_isSome (sym.zip pd) missing hlen
+  unfold validateEllipsoid
+  rw [← C12_ellipsoid_shape_partial]
+  cases hs : ellipsoidShapeStage axes shape with
+  | ok =>
+    simp only [hr, true_and]
+    constructor
+    · intro h x hx
+      have hx' := (mem_applyMask_iff _ missing r hr x).2 hx
+      split at h
+      · cases h
+      rename_i h1
+      split at h
+      · cases h
+      rename_i h2
+      simp only [Bool.not_eq_true', Bool.not_eq_false, List.all_eq_true] at h1 h2
+      exact ⟨h1 x hx', h2 x hx'⟩
+    · intro h
+      have h1 : r.all (·.1) = true := List.all_eq_true.2 fun x hx =>
+        (h x ((mem_applyMask_iff _ missing r hr x).1 hx)).1
+      have h2 : r.all (·.2) = true := List.all_eq_true.2 fun x hx =>
+        (h x ((mem_applyMask_iff _ missing r hr x).1 hx)).2
+      simp [h1, h2]
+  | valueError m => simp
+  | other n => simp
+
 /-! ## dispatch -/
 
 /-- the config flag that governs a call -/
@@ -340,6 +379,21 @@ theorem C12_source_passes_directedness_and_masks :
     Gen.ValidateDispatch.callArgs.lookup "validate_ellipsoid" = some 3 := by
   decide
 
+/-! ## lineage ids with a missing mask (repair D14; used by C14 / C16) -/
+
+/-- `validate_data(lineage=True)` on a property with a `missing` mask: exactly the (node, id)
+pairs at unflagged positions are validated (all edges kept), and — node ids being unique — the
+verdict is the lineage specification of C14 for those pairs: ids agree exactly on weakly connected
+components and no lineage is attached to a node without id. -/
+theorem C12_lineage_ids_masked {α L : Type} [DecidableEq α] [DecidableEq L]
+    (nodes : List α) (values : List L) (m : Option (List Bool)) (es : List (α × α))
+    (nl : List (α × L)) (hsel : Geff.Tracklet.nodesWithId nodes values m = some nl) (hnd : nodes.Nodup) :
+    (Geff.Lineage.validateLineages nl es = true ↔ GeffProps.C14.Spec nl es) ∧
+    (∀ m', m = some m' → ∀ p, p ∈ nl ↔ (p, false) ∈ (nodes.zip values).zip m') :=
+  ⟨GeffProps.C14.C14_iff nl es
+      (Geff.Tracklet.uniq_of_nodup nl (Geff.Tracklet.nodesWithId_nodup nodes values m nl hsel hnd)),
+   fun m' hm p => by subst hm; exact Geff.Tracklet.mem_nodesWithId nodes values m' nl hsel p⟩
+
 /-! ## Non-vacuity and the pre-repair failing inputs (evaluations of the model) -/
 example : GraphValid true [1, 2, 3] [(1, 2), (2, 1), (2, 3)] :=
   ⟨by decide, by decide, by decide, by decide⟩
@@ -357,6 +411,17 @@ example : validateSphere 1 [.f64 0x8000000000000000, .f64 0xFFF8000000000000] no
 -- D6b: (N,3,3) with three space axes passes the shape stage, (N,3,3) with two does not
 example : ellipsoidShapeStage (some ["time", "space", "space", "space"]) [10, 3, 3] = .ok := by decide
 example : ellipsoidShapeStage (some ["space", "space"]) [10, 3, 3] ≠ .ok := by decide
+-- a non-symmetric, non-positive-definite matrix under the mask is ignored
+example : validateEllipsoid (some ["space", "space"]) [2, 2, 2] [true, false] [true, false]
+    (some [false, true]) = .ok := by decide
+example : validateEllipsoid (some ["space", "space"]) [2, 2, 2] [true, false] [true, false] none ≠ .ok := by
+  decide
+-- D14: two unlabelled lone nodes next to a labelled pair: accepted (before the repair: "lineage 0" invalid)
+example : (Geff.Tracklet.nodesWithId [(1:Nat), 2, 3, 4] [(7:Nat), 7, 0, 0] (some [false, false, true, true])).map
+    (fun nl => Geff.Lineage.validateLineages nl [(1, 2)]) = some true := by decide
+-- … but a lineage attached to an unlabelled node is rejected
+example : (Geff.Tracklet.nodesWithId [(1:Nat), 2, 3] [(7:Nat), 7, 0] (some [false, false, true])).map
+    (fun nl => Geff.Lineage.validateLineages nl [(1, 2), (2, 3)]) = some false := by decide
 example : called { sphere := true, tracklet := true } ⟨true, false, some (true, false)⟩ =
     [.sphere, .tracklets] := by decide
 
